@@ -33,6 +33,7 @@ import (
 
 type structInfo struct {
 	fields   map[string]string // field name -> type name (pointer/package stripped) ; "" for non-named
+	byValue  map[string]bool   // field declared without `*`
 	embedded []string
 }
 
@@ -41,6 +42,7 @@ var (
 	structs = map[string]*structInfo{}
 	methods = map[string]*ast.FuncDecl{} // "T.m" or "f"
 	pkgVars = map[string]bool{}
+	lockCopies []string
 )
 
 // aliases: two names for ONE mutex. FBaseProcessorFunction.writeMu is the *sync.Mutex that the emitted
@@ -109,6 +111,25 @@ func methodOwner(t, m string, depth int) (string, bool) {
 		}
 	}
 	return "", false
+}
+
+// hasMutexByValue: struct t declares (or embeds a struct that declares) a sync.Mutex / sync.RWMutex by value.
+func hasMutexByValue(t string, depth int) bool {
+	si := structs[t]
+	if si == nil || depth > 4 {
+		return false
+	}
+	for f := range si.fields {
+		if si.byValue[f] && (si.fields[f] == "sync.Mutex" || si.fields[f] == "sync.RWMutex") {
+			return true
+		}
+	}
+	for _, e := range si.embedded {
+		if hasMutexByValue(e, depth+1) {
+			return true
+		}
+	}
+	return false
 }
 
 type fn struct {
@@ -471,15 +492,17 @@ func main() {
 					if !ok {
 						continue
 					}
-					si := &structInfo{fields: map[string]string{}}
+					si := &structInfo{fields: map[string]string{}, byValue: map[string]bool{}}
 					for _, fl := range stt.Fields.List {
 						tn := typeName(fl.Type)
 						if len(fl.Names) == 0 {
 							si.embedded = append(si.embedded, tn)
 							continue
 						}
+						_, isPtr := fl.Type.(*ast.StarExpr)
 						for _, n := range fl.Names {
 							si.fields[n.Name] = tn
+							si.byValue[n.Name] = !isPtr
 						}
 					}
 					structs[ts.Name.Name] = si
@@ -525,6 +548,28 @@ func main() {
 			}
 			return true
 		})
+		// a VALUE copy of the receiver's struct when that struct holds a mutex by value: `x := *c` copies the
+		// mutex in whatever state it is in (what `go vet -copylocks` reports)
+		if f.recvType != "" && f.recvName != "" && hasMutexByValue(f.recvType, 0) {
+			selX := map[ast.Expr]bool{}
+			ast.Inspect(d.Body, func(m ast.Node) bool {
+				if se, ok := m.(*ast.SelectorExpr); ok {
+					selX[se.X] = true
+					if pe, ok := se.X.(*ast.ParenExpr); ok {
+						selX[pe.X] = true
+					}
+				}
+				return true
+			})
+			ast.Inspect(d.Body, func(m ast.Node) bool {
+				if st, ok := m.(*ast.StarExpr); ok && !selX[st] {
+					if id, ok := st.X.(*ast.Ident); ok && id.Name == f.recvName {
+						lockCopies = append(lockCopies, f.name)
+					}
+				}
+				return true
+			})
+		}
 		fns = append(fns, f)
 	}
 	sort.Slice(fns, func(i, j int) bool { return fns[i].name < fns[j].name })
@@ -681,6 +726,15 @@ func main() {
 			b.WriteString(", ")
 		}
 		fmt.Fprintf(&b, "%d", fid[rt])
+	}
+	b.WriteString("]\n\n/-- methods that copy their receiver's struct BY VALUE although it holds a mutex by value (`x := *c`). -/\ndef lockCopies : List String := [")
+	sort.Strings(lockCopies)
+	for i, n := range lockCopies {
+		if i > 0 {
+			b.WriteString(", ")
+		}
+		fmt.Fprintf(&b, "%q", n)
+		fmt.Printf("COPY %s copies its receiver's struct, which holds a mutex, by value\n", n)
 	}
 	b.WriteString("]\n\nend FV.Generated.Locks\n")
 	// human-readable report of what breaks the discipline (the Lean side decides; this is for the replay file)
